@@ -74,7 +74,7 @@ def has_cycle(scn) -> bool:
     return bool(simple_cycles([s["sid"] for s in scn["sims"]], succ))
 
 
-def check_graph(scn: dict, C: Counter, viol) -> None:
+def check_graph(scn: dict, C: Counter, viol, again=None) -> None:
     C["graphs"] += 1
     cyc = has_cycle(scn)
     if cyc:
@@ -82,7 +82,7 @@ def check_graph(scn: dict, C: Counter, viol) -> None:
     bad = unresolved_cycles(scn)
     expect_reject = bool(bad)
     C["expected_reject" if expect_reject else "expected_accept"] += 1
-    tr = run_case(scn, {"policy": "fifo", "atomic": True})
+    tr = run_case(scn, {"policy": "fifo", "atomic": True, "run_again_after_scenario_error": (C["graphs"] % 3 == 0) if again is None else again})
     o = tr["outcome"]
     stepped = any(e.get("op") == "call" and e.get("kind") == "step" for e in tr["events"])
     desc = {"paths": {s["sid"]: s["path"] for s in scn["sims"]},
@@ -98,6 +98,15 @@ def check_graph(scn: dict, C: Counter, viol) -> None:
         if not expect_reject:
             viol("false_rejection", scenario=desc, msg=o.get("msg"))
             return
+        if "second_outcome" in tr:
+            # run() called again on the same (still cyclic) world: rejected again, nothing stepped
+            C["rejected_scenarios_run_a_second_time"] += 1
+            o2 = tr["second_outcome"]
+            stepped2 = any(e.get("op") == "call" and e.get("kind") == "step" and e["i"] >= tr["second_run_events_from"]
+                           for e in tr["events"])
+            if o2.get("type") != "ScenarioError" or stepped2:
+                viol("second_run_on_rejected_scenario_not_rejected", scenario=desc, second_outcome=o2, stepped=stepped2)
+                return
         sids = re.findall(r"sid='([^']+)'", o.get("msg", ""))
         C["named_cycles_checked"] += 1
         ok = len(sids) >= 2 and sids[0] == sids[-1]
@@ -232,7 +241,7 @@ def replay(rep: dict) -> List[dict]:
     def viol(kind, **kw):
         kw["kind"] = kind
         out.append(kw)
-    check_graph(rep["replay"]["scn"], C, viol)
+    check_graph(rep["replay"]["scn"], C, viol, again=True)
     return out
 
 
